@@ -5,4 +5,5 @@ CONSTANTS Tok = {"e","dot","dd","ipfs","ipns","ipld","IPFS","cidV0","cidV1b32","
           LenRed = 4
           LenUri = 2
           LenName = 2
-INVARIANTS Idempotent NoDots PrintedIsCanonical SameRootCid MutableHasNoCid UriEqualsPath NameRoundTrip TrailingSlashKept
+          LenNameW = 1
+INVARIANTS Idempotent NoDots PrintedIsCanonical SameRootCid MutableHasNoCid UriEqualsPath NameRoundTrip BinaryLaws TrailingSlashKept
